@@ -379,7 +379,7 @@ def run_both(prop, cases):
 # ----------------------------------------------------------------------------- step 5: shrink
 
 # top-level positions that hold oracle tables (tabulated answers of Qt): never shrunk
-PROTECT = {"sock": {2}, "srv": {2}, "srvm": {2}, "fs": {0, 1, 4}, "fsm": {0, 1, 3}, "bauth": {3}, "bauthm": {2}, "slot": {2}, "proxy": {5}}
+PROTECT = {"sock": {2}, "srv": {2}, "srvm": {2}, "fs": {0, 1, 4}, "fsm": {0, 1, 3}, "bauth": {3}, "bauthm": {2}, "slot": {2}, "slotm": {2}, "proxy": {5}}
 
 
 def candidates(v, protect=frozenset()):
